@@ -462,4 +462,309 @@ theorem stable_change_is_setStable (s : St) (b : Blk) :
   · exact Or.inl e
   · exact Or.inr ⟨c, hc, hcid, by rw [e]⟩
 
+
+/-! ## the quorum arithmetic -/
+
+/-- `(2n+2)/3` IS the ceiling of 2n/3 (the harness sweeps the float expression
+    `uint32(math.Ceil(float64(n)*2.0/3.0))` against it for every n < 65536, lines `tt n`). -/
+theorem two_thirds_arith (n : Nat) : 2 * n ≤ 3 * twoThirds n ∧ 3 * twoThirds n < 2 * n + 3 := by
+  unfold twoThirds; omega
+
+theorem twoThirds_mono {a b : Nat} (h : a ≤ b) : twoThirds a ≤ twoThirds b := by
+  unfold twoThirds; omega
+
+/-- quorum intersection: two quorums out of `n` deputies share more than a third of them
+    (`|A ∩ B| ≥ 2⌈2n/3⌉ − n ≥ n/3`, and `> 0` when there are deputies at all). -/
+theorem quorum_intersection_arith (n : Nat) : n ≤ 3 * (2 * twoThirds n - n) ∧ (0 < n → n < 2 * twoThirds n) := by
+  unfold twoThirds; omega
+
+/-- … as a statement about sets of deputies: two duplicate-free lists of deputies (`< n`) that each
+    reach the quorum have a common member. -/
+theorem quorum_intersection {n : Nat} {A B : List Nat} (hn : 0 < n) (hA : A.Nodup) (hB : B.Nodup)
+    (hAn : ∀ d ∈ A, d < n) (hBn : ∀ d ∈ B, d < n) (qA : twoThirds n ≤ A.length) (qB : twoThirds n ≤ B.length) :
+    ∃ d, d ∈ A ∧ d ∈ B := by
+  apply Classical.byContradiction
+  intro hno
+  have hdis : ∀ a ∈ A, ∀ b ∈ B, a ≠ b := fun a ha b hb hab => hno ⟨a, ha, hab ▸ hb⟩
+  have hnd : (A ++ B).Nodup := List.nodup_append.2 ⟨hA, hB, hdis⟩
+  have hsub : A ++ B ⊆ List.range n := by
+    intro d hd
+    rcases List.mem_append.1 hd with h | h
+    · exact List.mem_range.2 (hAn d h)
+    · exact List.mem_range.2 (hBn d h)
+  have hlen := List.Nodup.length_le_of_subset hnd hsub
+  rw [List.length_append, List.length_range] at hlen
+  have := (quorum_intersection_arith n).2 hn
+  omega
+
+/-- counting distinct deputies: a duplicate-free signer list of deputies counts in full. -/
+theorem length_le_distinctCount {n : Nat} {b : Blk} (hnd : (signersOf b).Nodup) (hlt : ∀ d ∈ signersOf b, d < n) :
+    (signersOf b).length ≤ distinctCount n b := by
+  unfold distinctCount
+  apply List.Nodup.length_le_of_subset hnd
+  intro d hd
+  exact List.mem_filter.2 ⟨List.mem_range.2 (hlt d hd), by simpa using hd⟩
+
+theorem filterMap_recover_length : ∀ {l : List Sig}, (∀ s ∈ l, ∃ d, recover s = some d) →
+    (l.filterMap recover).length = l.length
+  | [], _ => rfl
+  | s :: rest, h => by
+    obtain ⟨d, hd⟩ := h s List.mem_cons_self
+    rw [List.filterMap_cons_some hd, List.length_cons, List.length_cons,
+      filterMap_recover_length (fun x hx => h x (List.mem_cons_of_mem _ hx))]
+
+/-! ## what the engine guarantees about the signatures it stores
+
+  Generic part: `P n b` is any property of a stored block that the verifier `V` establishes for a
+  fresh block and keeps when confirms are appended. Then every block of the tree has it, and the block
+  the stable pointer moves to has it and passed `IsConfirmEnough`. -/
+
+structure VOK (V : Verifier) (P : Nat → Blk → Prop) : Prop where
+  fresh : ∀ n (b : Blk), recover b.hdr = some b.miner → b.miner < n →
+    P n { b with confirms := (V n { b with confirms := [] } b.confirms).1 }
+  append : ∀ n (b : Blk) sigs, P n b → P n (appendConfirm b (V n b sigs).1)
+
+def PInv (P : Nat → Blk → Prop) (s : St) : Prop := ∀ b ∈ s.tree, P s.n b
+
+/-- one-step relation for the quorum part. -/
+def Trans (P : Nat → Blk → Prop) (s s' : St) : Prop :=
+  s'.n = s.n ∧ s'.dc = s.dc ∧
+  (s'.stable = s.stable ∨ (P s.n s'.stable ∧ isConfirmEnough s.dc s.n s'.stable = true))
+
+theorem Trans.refl (P : Nat → Blk → Prop) (s : St) : Trans P s s := ⟨rfl, rfl, Or.inl rfl⟩
+
+theorem blk_ext {a b : Blk} (h1 : a.id = b.id) (h2 : a.parent = b.parent) (h3 : a.height = b.height)
+    (h4 : a.miner = b.miner) (h5 : a.rank = b.rank) (h6 : a.hdr = b.hdr) (h7 : a.confirms = b.confirms) : a = b := by
+  cases a; cases b; simp_all
+
+theorem appendConfirm_rank : ∀ (valid : List Sig) (b : Blk), (appendConfirm b valid).rank = b.rank
+  | [], _ => rfl
+  | s :: rest, b => by
+    simp only [appendConfirm]
+    split
+    · exact appendConfirm_rank rest b
+    · exact appendConfirm_rank rest _
+
+theorem getBlock_some {s : St} {id : Nat} {b : Blk} (h : getBlock s id = some b) :
+    findBlk s.tree id = some b ∨ (findBlk s.tree id = none ∧ findBlk s.committed id = some b) := by
+  unfold getBlock at h
+  split at h
+  · rename_i x hx; cases h; exact Or.inl hx
+  · rename_i hx; exact Or.inr ⟨hx, h⟩
+
+theorem updateStable_trans {P : Nat → Blk → Prop} {s : St} {b : Blk} (_hi : TInv s) (hp : PInv P s)
+    (hb : ∀ c ∈ s.tree, c.id = b.id → c = b) :
+    PInv P (updateStable s b).1 ∧ Trans P s (updateStable s b).1 := by
+  rcases updateStable_cases s b with ⟨e, _⟩ | ⟨c, hc, hcid, hen, _, e⟩
+  · rw [e]; exact ⟨hp, Trans.refl P s⟩
+  · rw [e]
+    have hcb : c = b := hb c hc hcid
+    refine ⟨?_, rfl, rfl, Or.inr ⟨?_, ?_⟩⟩
+    · intro x hx
+      have hx' : x ∈ s.tree := descOf_sub _ _ x (List.mem_filter.1 hx).1
+      exact hp x hx'
+    · exact hp c hc
+    · show isConfirmEnough s.dc s.n c = true
+      rw [hcb]; exact hen
+
+theorem setHead_pinv {P : Nat → Blk → Prop} {s : St} (h : Option Blk) (hp : PInv P s) : PInv P (setHead s h) := by
+  obtain ⟨e1, _, _, e4, _⟩ := setHead_fields s h
+  intro b hb
+  rw [e1] at hb; rw [e4]; exact hp b hb
+
+theorem setHead_trans (P : Nat → Blk → Prop) (s : St) (h : Option Blk) : Trans P s (setHead s h) := by
+  obtain ⟨_, e2, _, e4, e5⟩ := setHead_fields s h
+  exact ⟨e4, e5, Or.inl e2⟩
+
+theorem Trans.trans_same {P : Nat → Blk → Prop} {a b c : St} (h1 : Trans P a b) (h2 : Trans P b c)
+    (hs : b.stable = a.stable ∨ c.stable = b.stable) : Trans P a c := by
+  obtain ⟨n1, d1, m1⟩ := h1
+  obtain ⟨n2, d2, m2⟩ := h2
+  refine ⟨n2.trans n1, d2.trans d1, ?_⟩
+  rcases hs with hs | hs
+  · rcases m2 with m2 | m2
+    · exact Or.inl (m2.trans hs)
+    · rw [n1, d1] at m2; exact Or.inr m2
+  · rcases m1 with m1 | m1
+    · exact Or.inl (hs.trans m1)
+    · rw [hs]; exact Or.inr m1
+
+theorem saveNewBlock_trans {P : Nat → Blk → Prop} {s : St} (b : Blk) (hi : Inv s) (hp : PInv P s) (hb : P s.n b) :
+    PInv P (saveNewBlock s b).1 ∧ Trans P s (saveNewBlock s b).1 := by
+  unfold saveNewBlock
+  split
+  · exact ⟨hp, Trans.refl P s⟩
+  · rename_i s1 hs1
+    obtain ⟨e1, t1⟩ := setBlock_spec hi.toTInv hs1
+    have hp1 : PInv P s1 := by
+      rw [e1]; intro x hx
+      rcases List.mem_cons.1 hx with rfl | hx
+      · exact hb
+      · exact hp x hx
+    have hb1 : b ∈ s1.tree := by rw [e1]; exact List.mem_cons_self
+    have tr1 : Trans P s s1 := by rw [e1]; exact ⟨rfl, rfl, Or.inl rfl⟩
+    have st1 : s1.stable = s.stable := by rw [e1]
+    obtain ⟨hp2, tr2⟩ := updateStable_trans t1 hp1 (fun c hc hcid => WF.unique t1.wf c hc b hb1 hcid)
+    split
+    · rename_i s2 ch hus
+      have e2 : (updateStable s1 b).1 = s2 := by rw [hus]
+      rw [e2] at hp2 tr2
+      exact ⟨hp2, tr1.trans_same tr2 (Or.inl st1)⟩
+    · rename_i s2 ch hus
+      have e2 : (updateStable s1 b).1 = s2 := by rw [hus]
+      rw [e2] at hp2 tr2
+      have tr12 := tr1.trans_same tr2 (Or.inl st1)
+      split
+      · exact ⟨hp2, tr12⟩
+      · rename_i h _
+        exact ⟨setHead_pinv h hp2, tr12.trans_same (setHead_trans P s2 h) (Or.inr (setHead_fields s2 h).2.1)⟩
+
+theorem insertBlock_trans {V : Verifier} {P : Nat → Blk → Prop} (hv : VOK V P) {s : St} (b : Blk) (valid : Bool)
+    (hi : Inv s) (hp : PInv P s) :
+    PInv P (insertBlock V s b valid).1 ∧ Trans P s (insertBlock V s b valid).1 := by
+  unfold insertBlock
+  split
+  · exact ⟨hp, Trans.refl P s⟩
+  split
+  · exact ⟨hp, Trans.refl P s⟩
+  split
+  · exact ⟨hp, Trans.refl P s⟩
+  split
+  · exact ⟨hp, Trans.refl P s⟩
+  rename_i hsig
+  split
+  · exact ⟨hp, Trans.refl P s⟩
+  split
+  · exact ⟨hp, Trans.refl P s⟩
+  have h1 : recover b.hdr = some b.miner := by
+    apply Classical.byContradiction; intro h; exact hsig (Or.inl h)
+  have h2 : b.miner < s.n := by
+    apply Classical.byContradiction; intro h; exact hsig (Or.inr h)
+  exact saveNewBlock_trans _ hi hp (hv.fresh s.n b h1 h2)
+
+theorem updateForkForConfirm_fields (s : St) :
+    (updateForkForConfirm s).tree = s.tree ∧ (updateForkForConfirm s).stable = s.stable ∧
+    (updateForkForConfirm s).n = s.n ∧ (updateForkForConfirm s).dc = s.dc := by
+  unfold updateForkForConfirm
+  split
+  · obtain ⟨e1, e2, _, e4, e5⟩ := setHead_fields s (some (chooseNewFork s.stable s.tree))
+    exact ⟨e1, e2, e4, e5⟩
+  · exact ⟨rfl, rfl, rfl, rfl⟩
+
+theorem afterConfirm_trans {P : Nat → Blk → Prop} {s1 : St} (nb : Blk) (height : Nat) (hi : Inv s1) (hp : PInv P s1)
+    (hb : ∀ c ∈ s1.tree, c.id = nb.id → c = nb) :
+    PInv P (afterConfirm s1 nb height).1 ∧ Trans P s1 (afterConfirm s1 nb height).1 := by
+  unfold afterConfirm
+  split
+  · obtain ⟨hp2, tr2⟩ := updateStable_trans hi.toTInv hp hb
+    split
+    · rename_i s2 ch hus
+      have e2 : (updateStable s1 nb).1 = s2 := by rw [hus]
+      rw [e2] at hp2 tr2
+      exact ⟨hp2, tr2⟩
+    · rename_i s2 ch hus
+      have e2 : (updateStable s1 nb).1 = s2 := by rw [hus]
+      rw [e2] at hp2 tr2
+      obtain ⟨f1, f2, f3, f4⟩ := updateForkForConfirm_fields s2
+      refine ⟨?_, ?_⟩
+      · intro x hx; rw [f1] at hx; rw [f3]; exact hp2 x hx
+      · exact tr2.trans_same ⟨f3, f4, Or.inl f2⟩ (Or.inr f2)
+  · exact ⟨hp, Trans.refl P s1⟩
+
+theorem saveConfirm_pinv {P : Nat → Blk → Prop} {s : St} {id : Nat} {b : Blk} (valid : List Sig) (hi : TInv s)
+    (hp : PInv P s) (hg : getBlock s id = some b) (hnb : b ∈ s.tree → P s.n (appendConfirm b valid)) :
+    PInv P (saveConfirm s b valid).1 ∧ (saveConfirm s b valid).1.n = s.n ∧ (saveConfirm s b valid).1.dc = s.dc ∧
+    (∀ c ∈ (saveConfirm s b valid).1.tree, c.id = (saveConfirm s b valid).2.id → c = (saveConfirm s b valid).2) := by
+  have hshape := appendConfirm_shape valid b
+  rcases getBlock_some hg with h1 | ⟨h1, h2⟩
+  · obtain ⟨hbm, hbid⟩ := findBlk_some h1
+    have hf : findBlk s.tree b.id = some b := by rw [hbid]; exact h1
+    unfold saveConfirm
+    simp only [hf]
+    -- every entry with the id of `b` IS `b`, so it becomes `appendConfirm b valid`
+    have key : ∀ x ∈ s.tree, x.id = (appendConfirm b valid).id → replFn (appendConfirm b valid) x = appendConfirm b valid := by
+      intro x hx hxid
+      have hxb : x = b := WF.unique hi.wf x hx b hbm (hxid.trans hshape.1)
+      unfold replFn
+      rw [if_pos hxid, hxb]
+      exact blk_ext hshape.1.symm hshape.2.1.symm hshape.2.2.1.symm hshape.2.2.2.1.symm
+        (appendConfirm_rank valid b).symm hshape.2.2.2.2.symm rfl
+    refine ⟨?_, trivial, trivial, ?_⟩
+    · intro c hc
+      have hc' : c ∈ replaceBlk s.tree (appendConfirm b valid) := hc
+      rw [replaceBlk_eq] at hc'
+      rcases List.mem_map.1 hc' with ⟨x, hx, rfl⟩
+      by_cases hxid : x.id = (appendConfirm b valid).id
+      · rw [key x hx hxid]; exact hnb hbm
+      · have : replFn (appendConfirm b valid) x = x := by unfold replFn; rw [if_neg hxid]
+        rw [this]; exact hp x hx
+    · intro c hc hcid
+      have hc' : c ∈ replaceBlk s.tree (appendConfirm b valid) := hc
+      rw [replaceBlk_eq] at hc'
+      rcases List.mem_map.1 hc' with ⟨x, hx, rfl⟩
+      have hxid : x.id = (appendConfirm b valid).id := (replaceBlk_shape _ x).1.symm.trans hcid
+      exact key x hx hxid
+  · have hbid : b.id = id := (findBlk_some h2).2
+    have hf : findBlk s.tree b.id = none := by rw [hbid]; exact h1
+    unfold saveConfirm
+    simp only [hf]
+    refine ⟨hp, trivial, trivial, ?_⟩
+    intro c hc hcid
+    exact absurd (hcid.trans hshape.1) (findBlk_none hf c hc)
+
+theorem insertConfirms_trans {V : Verifier} {P : Nat → Blk → Prop} (hv : VOK V P) {s : St} (id height : Nat)
+    (sigs : List Sig) (hi : Inv s) (hp : PInv P s) :
+    PInv P (insertConfirms V s id height sigs).1 ∧ Trans P s (insertConfirms V s id height sigs).1 := by
+  unfold insertConfirms
+  split
+  · exact ⟨hp, Trans.refl P s⟩
+  split
+  · exact ⟨hp, Trans.refl P s⟩
+  rename_i b hg
+  split
+  · exact ⟨hp, Trans.refl P s⟩
+  split
+  · exact ⟨hp, Trans.refl P s⟩
+  simp only
+  split
+  · exact ⟨hp, Trans.refl P s⟩
+  obtain ⟨hp1, n1, d1, hu⟩ := saveConfirm_pinv (V s.n b sigs).1 hi.toTInv hp hg
+    (fun hbm => hv.append s.n b sigs (hp b hbm))
+  obtain ⟨i1, _⟩ := saveConfirm_inv b (V s.n b sigs).1 hi
+  obtain ⟨hp2, tr2⟩ := afterConfirm_trans (saveConfirm s b (V s.n b sigs).1).2 height i1 hp1 hu
+  have st1 := (saveConfirm_spec b (V s.n b sigs).1 hi.toTInv).2.1
+  exact ⟨hp2, Trans.trans_same ⟨n1, d1, Or.inl st1⟩ tr2 (Or.inl st1)⟩
+
+theorem step_trans {V : Verifier} {P : Nat → Blk → Prop} (hv : VOK V P) {s : St} (op : Op) (hi : Inv s) (hp : PInv P s) :
+    PInv P (step V s op).1 ∧ Trans P s (step V s op).1 := by
+  cases op with
+  | block b valid => exact insertBlock_trans hv b valid hi hp
+  | confirms id h sigs => exact insertConfirms_trans hv id h sigs hi hp
+
+theorem run_pinv {V : Verifier} {P : Nat → Blk → Prop} (hv : VOK V P) :
+    ∀ (ops : List Op) {s : St}, Inv s → PInv P s →
+      PInv P (run V s ops) ∧ (run V s ops).n = s.n ∧ (run V s ops).dc = s.dc
+  | [], _, _, hp => ⟨hp, rfl, rfl⟩
+  | op :: ops, s, hi, hp => by
+    obtain ⟨hp1, n1, d1, _⟩ := step_trans hv op hi hp
+    obtain ⟨hp2, n2, d2⟩ := run_pinv hv ops (step_spec V op hi).1 hp1
+    exact ⟨hp2, n2.trans n1, d2.trans d1⟩
+
+/-- whenever the stable pointer moves, the block it moves to has the stored-signature property `P`
+    and passed `IsConfirmEnough`. -/
+theorem stable_change_has {V : Verifier} {P : Nat → Blk → Prop} (hv : VOK V P) (dc n g : Nat) (ops : List Op) (op : Op) :
+    let s := run V (init dc n g) ops
+    (step V s op).1.stable.id ≠ s.stable.id →
+      P n (step V s op).1.stable ∧ isConfirmEnough dc n (step V s op).1.stable = true := by
+  intro s hne
+  have hi := inv_reachable V dc n g ops
+  obtain ⟨hp, hn, hd⟩ := run_pinv (P := P) hv ops (inv_init dc n g) (fun b hb => by cases hb)
+  obtain ⟨_, _, _, m⟩ := step_trans hv op hi hp
+  rcases m with m | m
+  · exact absurd (by rw [m]) hne
+  · have hn' : s.n = n := hn
+    have hd' : s.dc = dc := hd
+    rw [hn', hd'] at m
+    exact m
+
 end LemoProofs.C03
